@@ -5,8 +5,8 @@ cd "$WT" && git checkout -q -- . && git apply "$D/patch.diff" || { echo "APPLY F
 touch "$D/demo.cpp"
 cp "$D/demo.cpp" "/tmp/demo/$(basename $D)_demo.cpp"
 DEMO="/tmp/demo/$(basename $D)_demo.cpp"
-( timeout 1800 /opt/hgbuild/run_demo.sh /repo "$DEMO" > "$D/confirm_unmodified.out" 2>&1; echo "exit=$?" >> "$D/confirm_unmodified.out" )
-( timeout 2400 /opt/hgbuild/run_demo.sh "$WT" "$DEMO" > "$D/confirm_modified.out" 2>&1; echo "exit=$?" >> "$D/confirm_modified.out" )
+( timeout 1800 python3 /verif/tools/hgbuild/hgbuild.py demo /repo "$DEMO" > "$D/confirm_unmodified.out" 2>&1; echo "exit=$?" >> "$D/confirm_unmodified.out" )
+( timeout 2400 python3 /verif/tools/hgbuild/hgbuild.py demo "$WT" "$DEMO" > "$D/confirm_modified.out" 2>&1; echo "exit=$?" >> "$D/confirm_modified.out" )
 git -C "$WT" checkout -q -- .
 U=$(tail -1 "$D/confirm_unmodified.out"); M=$(tail -1 "$D/confirm_modified.out")
 echo "unmodified: $U ; modified: $M" > "$D/confirm.txt"
